@@ -221,6 +221,7 @@ class Gen:
         self.dropped = []
         self.anchor_lines = {}
         self.closure_sigs = {}
+        self.loop_sigs = {}
 
 
 def load_unit(unit):
@@ -280,7 +281,9 @@ def build(unit, model, repo=None, mutate_false=None, tag=""):
     if os.path.exists(bpath):
         try:
             with open(bpath) as bf:
-                rules["pinned_closure_sigs"] = json.load(bf).get("closure_sigs", {})
+                _bd = json.load(bf)
+                rules["pinned_closure_sigs"] = _bd.get("closure_sigs", {})
+                rules["pinned_loop_sigs"] = _bd.get("loop_sigs", {})
         except Exception:
             pass
     sources = json.loads(json.dumps(cfg["sources"]))
@@ -335,6 +338,8 @@ def build(unit, model, repo=None, mutate_false=None, tag=""):
             g.anchor_lines.setdefault(fk, {})[akey] = rel
         for (fk, sigs) in seg.get("closure_sigs", []):
             g.closure_sigs[fk] = sigs
+        for (fk, sigs) in seg.get("loop_sigs", []):
+            g.loop_sigs[fk] = sigs
         # function ranges in generated coordinates
         for fn in seg["fns"]:
             gs = ge = None
